@@ -81,6 +81,19 @@ Theorem C07_dep_target_jammed : forall fuel c s pni payload timeout eps,
   r = Err TimeoutError /\ now s' <= now s + Z.max 0 timeout + 2 * ctick c /\ (Sn s' <= Sn s + budget eps timeout + 1)%nat.
 Proof. exact dep_target_jammed. Qed.
 Print Assumptions C07_dep_target_jammed.
+(* the release phase of the target (Target._deactivate, the target side of llc.terminate): against ANY script of requests of ANY
+   length - well-formed ATN / INF / NAK / ACK requests with the right DID included - and corrupted frames (each needing eps > 0
+   time units) it returns, no later than the grace period plus four clock ticks after it began, having sent at most
+   (grace / tick) + 2 responses; the loops' fuel depends on grace / tick and grace / eps only.  (One deadline for the whole
+   phase; the seeded regression C07-d1 renews it with every answered request.) *)
+Theorem C07_dep_target_deactivate_deadline : forall fuel c s data grace eps,
+  cfg_ok c -> len data <= cmiu c -> 0 < eps -> 0 < ctick c -> 0 <= now s -> Forall (slow eps) (ans s) ->
+  (budget (ctick c) grace < fuel)%nat -> (budget eps grace < fuel)%nat ->
+  let r := fst (t_deactivate fuel c s data grace) in
+  let s' := snd (t_deactivate fuel c s data grace) in
+  r = Ok tt /\ now s' <= now s + Z.max 0 grace + 4 * ctick c /\ (nresp s' <= nresp s + budget (ctick c) grace + 2)%nat.
+Proof. exact dep_target_deactivate_deadline. Qed.
+Print Assumptions C07_dep_target_deactivate_deadline.
 (* the code as it was (c07-3) / the seeded regression C07-2: a timeout extension PDU without value in reply to the ACK of a
    chained response raises IndexError out of Initiator.exchange; the repaired code answers with ProtocolError *)
 Theorem C07_orig_rtox_in_chaining :
@@ -506,6 +519,34 @@ Theorem C07_bridge_i_loops f c s spni fmt pni data rwt dl n ch :
      end).
 Proof. intros; apply bridge_i_loops; assumption. Qed.
 Print Assumptions C07_bridge_i_loops.
+
+Theorem C07_bridge_t_deactivate f fuel c s res data dl :
+  gen_deact_grace_ms = 1000 /\
+  t_deact_loop (S f) fuel c s res data dl =
+  (if negb (gen_deact_running (now s) dl) then (Ok tt, s) else
+   let (r, s') := t_send fuel c s None res dl in
+   match r with
+   | Err _ => (Ok tt, s')
+   | Ok None => (Ok tt, s')
+   | Ok (Some q) =>
+       if oeqb (treq_did q) (cdid c) then
+         match q with
+         | TDsl _ | TRls _ =>
+             let rls := match q with TRls _ => true | _ => false end in
+             let (r2, s2) := t_listen fuel c s' (Some (enc_rel c rls)) 0 in
+             match r2 with Crash x => (Crash x, s2) | Hang => (Hang, s2) | _ => (Ok tt, s2) end
+         | TDep d =>
+             if gen_deact_is_atn (rfmt d) then t_deact_loop f fuel c s' (Some (8, 0, [])) data dl
+             else t_deact_loop f fuel c s' (Some (0, rpni d, data)) data dl
+         | TOther _ => t_deact_loop f fuel c s' None data dl
+         end
+       else t_deact_loop f fuel c s' None data dl
+   | Crash x => (Crash x, s')
+   | Hang => (Hang, s')
+   end) /\
+  (forall grace, t_deactivate fuel c s data grace = t_deact_loop fuel fuel c s None data (now s + grace)).
+Proof. intros; apply bridge_t_deactivate; assumption. Qed.
+Print Assumptions C07_bridge_t_deactivate.
 
 (* --- the code as it was (each of these inputs was found by the check on the unrepaired tree) --- *)
 Theorem C07_orig_dep_empty_frame : decode_frame_orig Ini false [] = Crash IndexErr /\ decode_frame_orig Tgt true [240] = Crash IndexErr.
